@@ -461,7 +461,21 @@ pub fn pipeline_from(ctx: &mut Ctx, rng: &mut Rng, x0: ArrayRef, first: Option<&
     }
 }
 
+/// force_validate / exercise panics are keyed on (op, kind, source file of the re-validating
+/// constructor): one defect (e.g. a builder that is not reset by finish()) surfaces through
+/// many different constructor messages, which stay in the witness text.
+pub fn norm_sig(sig: &str) -> String {
+    let p: Vec<&str> = sig.split('|').collect();
+    if let Some(i) = p.iter().position(|x| *x == "fv-panic" || *x == "exercise-panic") {
+        if p.len() > i + 1 {
+            return format!("C01|{}|{}|{}", p[1], p[i], p[i + 1]);
+        }
+    }
+    sig.to_string()
+}
+
 pub fn run(ctx: &mut Ctx) {
+    ctx.sig_norm = Some(norm_sig);
     const CHUNKS: u64 = 8;
     for k in 0..CHUNKS {
         run_slice(ctx, k, CHUNKS);
